@@ -175,6 +175,12 @@ type Engine interface {
 	Execute(t *testing.T, c *Case, keepLog bool) *Outcome
 }
 
+// Enumerator is implemented by engines whose case space is finite and enumerated completely.
+type Enumerator interface {
+	Total(tier string) int
+	CaseAt(i int, tier string) *Case
+}
+
 // Bubble runs f as the root goroutine of a fresh synctest bubble and swallows the
 // end-of-bubble deadlock panic caused by tasks that are still parked when f returns.
 func Bubble(t *testing.T, f func()) (panicked any) {
@@ -284,7 +290,17 @@ func Main(t *testing.T, e Engine) {
 				break
 			}
 			seed := RunSeed(base, i)
-			c := e.Generate(seed, tier)
+			var c *Case
+			if en, ok := e.(Enumerator); ok {
+				// finite space: run index i IS case i; seeds play no role
+				if i >= en.Total(tier) {
+					break
+				}
+				seed = uint64(i)
+				c = en.CaseAt(i, tier)
+			} else {
+				c = e.Generate(seed, tier)
+			}
 			o := e.Execute(t, c, false)
 			s.Runs++
 			if o.HarnessError != "" {
@@ -330,6 +346,12 @@ func Main(t *testing.T, e Engine) {
 		}
 		s.WallNS = int64(time.Since(t0))
 		write(s)
+	case "total":
+		n := -1
+		if en, ok := e.(Enumerator); ok {
+			n = en.Total(tier)
+		}
+		write(map[string]any{"total": n})
 	case "raceself":
 		raceSelfTest(t)
 		write(map[string]any{"race_enabled": sim.RaceEnabled})
